@@ -707,14 +707,12 @@ fn fs_offset_from_cluster() {
 
 // ------------------------------------------------------------------------------------------- single faults at FileSystem level (C09)
 
-fn fault_dev(ft: FatType, variant: u8, fault_at: u32) -> (Geo, WinDev) {
+fn fault_dev(ft: FatType, variant: u8, fault_at: u32) -> (Geo, crate::verif_support::dev::Faulty<WinDev>) {
     let g = Geo::small(ft, 6);
     let mut dev = win_for(&g);
     dev.fat0 = sample_table(ft, variant);
     dev.fat1 = dev.fat0;
-    dev.fault_at = fault_at;
-    dev.budget = 120;
-    (g, dev)
+    (g, crate::verif_support::dev::Faulty::new(dev, fault_at, 120))
 }
 
 use crate::verif_support::dev::FAULT;
@@ -743,7 +741,7 @@ fn fault_fs_check(ft: FatType, op: u8) {
         _ => { let r = fs.set_dirty_flag(true); (matches!(r, Err(t) if t == FAULT), r.is_ok()) }
     };
     let d = fs.disk.borrow();
-    assert!(!d.oob);
+    assert!(!d.inner.oob);
     // the fault surfaces as the I/O variant carrying the device's error; without a fault the call succeeds
     if d.fired { assert!(fault); } else { assert!(ok); }
     kani::cover!(d.fired && fault_at >= 1);
